@@ -63,14 +63,13 @@ def sync_lock(crate_dir):
     """copy /repo/Cargo.lock next to the harness crate so that the same dependency versions are used"""
     src = os.path.join(REPO, "Cargo.lock")
     dst = os.path.join(crate_dir, "Cargo.lock")
-    if os.path.exists(src) and not os.path.exists(dst):
+    if os.path.exists(src):
         shutil.copy(src, dst)
 
 
 def build_native(profile="dev", features=None, toolchain=None, rustflags=None, target=None, build_std=False, tag="native"):
     """Build /verif/harness/native against /repo's current working tree.  Returns the executable."""
     crate = os.path.join(VERIF, "harness", "native")
-    sync_lock(crate)
     tdir = os.path.join(BUILD, tag)
     cmd = ["cargo"]
     if toolchain:
@@ -87,7 +86,9 @@ def build_native(profile="dev", features=None, toolchain=None, rustflags=None, t
     extra = {"CARGO_TARGET_DIR": tdir}
     if rustflags:
         extra["RUSTFLAGS"] = rustflags
-    with Lock(tag):
+    with Lock("native-src"):
+        # all native builds share the crate directory (and its Cargo.lock copy)
+        sync_lock(crate)
         rc, out = sh(cmd, cwd=crate, env=env_offline(extra), timeout=1800)
     if rc != 0:
         raise HarnessError("native harness does not build against the tree under test:\n" + out[-4000:])
